@@ -339,9 +339,9 @@ def Stats.toFlat (s : Stats α) : List α := (s.sum ++ [s.cnt]) ++ (s.sq ++ [s.p
 
 def Stats.toArr (s : Stats α) : Arr α := { shape := [2, s.dim + 1], data := s.toFlat }
 
-/-- `a.reshape((2, -1))`; `none` = NumPy's `ValueError` (odd or zero size) -/
+/-- `a.reshape((2, -1))`; `none` = NumPy's `ValueError` (odd size; size 0 reshapes to `(2, 0)`) -/
 def reshape2 (flat : List α) : Option (List α × List α) :=
-  if flat.length = 0 ∨ flat.length % 2 ≠ 0 then none
+  if flat.length % 2 ≠ 0 then none
   else some (flat.take (flat.length / 2), flat.drop (flat.length / 2))
 
 /-- split rows into `[:-1]` and `[-1]` -/
@@ -359,14 +359,16 @@ def valid (closeRound : α → Bool) (s : Stats α) : Bool :=
 def validOld (closeRound : α → Bool) (s : Stats α) : Bool :=
   closeRound s.cnt && (s.toFlat.all fun x => decide (0 ≤ x))
 
-/-- body of `_sanitize_stats` up to the decision: reshape, then `valid` (`none` = not valid) -/
-def sanitizeOnce (closeRound : α → Bool) (flat : List α) : Option (Stats α) :=
+/-- body of `_sanitize_stats` up to the decision: reshape, then `valid` (`.ok none` = not valid).
+`self._stats[0, -1]` on a `(2, 0)` matrix (empty file) raises `IndexError`, which the code's
+`except ValueError` does not catch. -/
+def sanitizeOnce (closeRound : α → Bool) (flat : List α) : Except Err (Option (Stats α)) :=
   match reshape2 flat with
-  | none => none
+  | none => .ok none
   | some (r0, r1) =>
     match Stats.ofRows r0 r1 with
-    | none => none
-    | some s => if valid closeRound s then some s else none
+    | none => .error .IndexError
+    | some s => if valid closeRound s then .ok (some s) else .ok none
 
 /-- byte re-interpretation of a 1-D array, abstract: `np.frombuffer(a.tobytes(), float64)` for a float32
 `a`, and `np.frombuffer(a.tobytes(), float32).astype(float64)` for a float64 `a` -/
@@ -377,14 +379,16 @@ structure Reinterp (α : Type) where
 /-- `_sanitize_stats(checked_other_float=True)` -/
 def sanitizeChecked (closeRound : α → Bool) (flat : List α) : Except Err (Stats α) :=
   match sanitizeOnce closeRound flat with
-  | some s => .ok s
-  | none => .error .IOError
+  | .error e => .error e
+  | .ok (some s) => .ok s
+  | .ok none => .error .IOError
 
 /-- `_sanitize_stats()` for statistics that were read with dtype `dt` -/
 def sanitize (closeRound : α → Bool) (R : Reinterp α) (dt : DT) (flat : List α) : Except Err (Stats α) :=
   match sanitizeOnce closeRound flat with
-  | some s => .ok s
-  | none =>
+  | .error e => .error e
+  | .ok (some s) => .ok s
+  | .ok none =>
     match dt with
     | .f32 => sanitizeChecked closeRound (R.f32as64 flat)
     | .f64 => sanitizeChecked closeRound (R.f64as32 flat)
